@@ -29,7 +29,7 @@ EXHAUSTIVE = None
 CAP = 80
 
 PREFIX = ['incr', 'extkill', 'selfexit', 'check', 'advance', 'decr', 'sigexit']
-TAIL = ['check', 'check', 'advance', 'incr', 'decr', 'setnp', 'signal', 'kill', 'status', 'extkill']
+TAIL = ['check', 'check', 'advance', 'incr', 'decr', 'setnp', 'setopt', 'setopt', 'signal', 'kill', 'status', 'extkill']
 OPS = ['stop', 'stop', 'restart', 'rm', 'quit', 'quit_signal', 'stopall']
 
 
